@@ -214,7 +214,13 @@ func (r *reqState) Enabled(op int) bool {
 		if n := len(r.spec.Handler.Resps); k > n {
 			k = n // the handler has nothing more to answer with
 		}
-		return k == 0 || log.sentMirror() >= k || log.returnedMirror() || r.q.mAborted || r.q.mReturned
+		if k == 0 || log.returnedMirror() || r.q.mAborted || r.q.mReturned {
+			return true
+		}
+		// the handler has sent its k-th answer AND those bytes have been
+		// flushed to the client (a local handler's writes go through the
+		// simulated net/http buffer; a backend's through grpc-go)
+		return log.sentMirror() >= k && (r.spec.Backend != "" || r.q.mFlushed >= log.sentMark(k))
 	case opConsume:
 		return r.q.mOut > r.q.mConsumed
 	case opClose:
@@ -698,6 +704,7 @@ type muxRun struct {
 	stop   core.StopReason
 	mux    *larking.Mux
 	parked []string
+	simTime     time.Duration
 	bubblePanic string  // the bubble could not end: goroutines blocked for ever
 	leftBehind  []string
 	stuck  []*reqState // requests that had not returned when the driver stopped
@@ -923,6 +930,7 @@ func runMuxScenario(t *testing.T, sc *MuxScenario, tape *core.Tape) (mr *muxRun)
 		}
 		mr.stopBackends()
 		synctest.Wait()
+		mr.simTime = sim.Now() // the fake clock only exists inside the bubble
 	})
 	return mr
 }
@@ -1019,7 +1027,7 @@ func (mr *muxRun) fill(res *RunResult, tape *core.Tape) {
 	res.Dirty = mr.bubblePanic != ""
 	if mr.sim != nil {
 		res.Steps = mr.sim.StepNo()
-		res.SimTime = mr.sim.Now()
+		res.SimTime = mr.simTime
 		res.Counters = mr.sim.Counters()
 		res.SchedSig = mr.sim.ScheduleSignature()
 		res.Digest = mr.sim.TraceDigest()
